@@ -175,11 +175,14 @@ pub(super) fn range_list(p: &mut Parser) -> CompletedMarker {
 pub(super) fn range_piece(p: &mut Parser) -> CompletedMarker {
     p.start_node(SyntaxKind::RangePiece);
     integer(p).or_error(p, "expected integer or bitrange");
-    if p.at_set(&[T![...], T![-]]) {
+    let has_separator = p.at_set(&[T![...], T![-]]);
+    if has_separator {
         p.eat();
     }
     if p.at(TokenKind::IntVal) {
         integer(p).or_error(p, "expected integer value as end of range");
+    } else if has_separator {
+        p.error("expected integer value as end of range");
     }
     p.finish_node();
     CompletedMarker::Success
@@ -214,6 +217,9 @@ pub(super) fn slice_element(p: &mut Parser) -> CompletedMarker {
     value(p);
     if p.at_set(&[T![...], T![-]]) {
         p.eat();
+        if !p.at_set(&VALUE_START) {
+            p.error("expected value as end of slice range");
+        }
     }
     opt_value(p);
     p.finish_node();
